@@ -40,7 +40,8 @@ func raceAlphabet(name string) (f string, inits [][]tt.Op, ops []tt.Op, post []t
 	case "heap":
 		return "heap", [][]tt.Op{{fop("heap", "new", 0)}, {fop("heap", "new", 0), fop("heap", "push", 2)}, {fop("heap", "new", 0), fop("heap", "push", 2), fop("heap", "push", 4), fop("heap", "push", 3)}},
 			[]tt.Op{fop("heap", "push", 1), fop("heap", "pop"), fop("heap", "peek"), fop("heap", "size"), fop("heap", "isempty"), fop("heap", "clear"),
-				fop("heap", "getvalues"), fop("heap", "delete", 2), fop("heap", "convert", 1), fop("heap", "merge"), fop("heap", "meld")},
+				fop("heap", "getvalues"), fop("heap", "delete", 2), fop("heap", "convert", 1), fop("heap", "merge"), fop("heap", "meld"),
+				fop("heap", "pushn", 7, 1, 6)},
 			[]tt.Op{fop("heap", "push", 5), fop("heap", "size"), fop("heap", "pop")}
 	case "bstree":
 		return "bstree", [][]tt.Op{{fop("bstree", "new", 0)}, {fop("bstree", "new", 0), fop("bstree", "upsert", 2, 1)}, {fop("bstree", "new", 0), fop("bstree", "upsert", 2, 1), fop("bstree", "upsert", 1, 2), fop("bstree", "upsert", 3, 3)}},
@@ -86,6 +87,18 @@ func raceSeqs(name string) [][]tt.Op {
 func racePrograms(name string, triples bool) []concProg {
 	_, inits, ops, post := raceAlphabet(name)
 	var out []concProg
+	if name == "heap" {
+		// two shared heaps merged / melded into each other in both directions while each is being written:
+		// nested locking in opposite orders only deadlocks with a writer waiting on either side
+		i2 := []tt.Op{fop("heap", "new", 0), fop("heap", "push", 2), fop("heap", "push", 4), fop("heap", "pushB", 3), fop("heap", "pushB", 5)}
+		p2 := []tt.Op{fop("heap", "push", 9), fop("heap", "size"), fop("heap", "pushB", 9), fop("heap", "sizeB")}
+		for _, mm := range [][2]string{{"mergeAB", "mergeBA"}, {"meldAB", "meldBA"}, {"mergeAB", "meldBA"}} {
+			out = append(out, concProg{Ty: name, Init: i2, Post: p2, Threads: [][]tt.Op{
+				{fop("heap", mm[0])}, {fop("heap", mm[1])}, {fop("heap", "push", 1)}, {fop("heap", "pushB", 1)}}})
+			out = append(out, concProg{Ty: name, Init: i2, Post: p2, Threads: [][]tt.Op{{fop("heap", mm[0])}, {fop("heap", mm[1])}}})
+			out = append(out, concProg{Ty: name, Init: i2, Post: p2, Threads: [][]tt.Op{{fop("heap", mm[0])}, {fop("heap", "pushB", 1)}, {fop("heap", "pop")}}})
+		}
+	}
 	for _, init := range inits {
 		for _, a := range ops {
 			for _, sq := range raceSeqs(name) {
@@ -265,6 +278,17 @@ func handPrograms() []handProg {
 		for _, h := range []string{"cache.list", "cache.get"} {
 			out = append(out, handProg{Ty: "cache", Init: ci[1], Hand: h, Then: []tt.Op{o}})
 			out = append(out, handProg{Ty: "cache", Init: ci[1], Hand: h, Then: []tt.Op{o, fop("cache", "update", 0, 6, 0), fop("cache", "set", 4, 4, 0)}})
+		}
+	}
+	// the listing / the item is still being read while entries expire and are purged
+	for _, h := range []string{"cache.list", "cache.get"} {
+		for _, then := range [][]tt.Op{
+			{fop("cache", "tick", 5), fop("cache", "delexp")},
+			{fop("cache", "tick", 5), fop("cache", "delexp"), fop("cache", "set", 0, 7, 0)},
+			{fop("cache", "tick", 5), fop("cache", "set", 0, 7, 0), fop("cache", "delexp")},
+			{fop("cache", "tick", 5), fop("cache", "get", 0), fop("cache", "isexpired", 0), fop("cache", "count")},
+		} {
+			out = append(out, handProg{Ty: "cache", Init: ci[1], Hand: h, Then: then})
 		}
 	}
 	return out
